@@ -466,6 +466,20 @@ func (x *Exec) stub(fn *ssa.Function, args []Val, site string) (Val, bool) {
 		x.stubsUsed["sync.Map"] = true
 		x.mapDelete(m, args[1])
 		return nil, true
+	case "(*sync.Once).Do":
+		// one atomic visible step decides who runs f; f runs at most once
+		x.visible()
+		c := args[0].(PtrV).C
+		if x.onces == nil {
+			x.onces = map[*Cell]bool{}
+		}
+		if x.onces[c] {
+			return nil, true
+		}
+		x.onces[c] = true
+		x.stubsUsed["sync.Once"] = true
+		x.call(args[1].(FuncV), nil, "sync.Once.Do")
+		return nil, true
 	// ---- WaitGroup / Mutex
 	case "(*sync.WaitGroup).Add":
 		x.wgAdd(args[0].(PtrV).C, x.concInt(args[1], "wg.Add"))
